@@ -3,8 +3,8 @@
    path theorem for every even size in 2..8 (16 sizes) and ALL ordered pairs of plaquettes, plus wrapping
    indices in [-2, max+2] for every even size in 2..6. *)
 From Coq Require Import List Bool Arith ZArith Lia.
-From QV Require Import Core.Bits Core.Pauli Core.Symp Core.Code Generated.LatticeArith
-  Lattice.RotPlanar Lattice.RotPlanarBounded Lattice.RotToric.
+From QV Require Import Core.Bits Core.Pauli Core.Symp Core.Code Core.Span Core.Rank Core.Dist Core.DistCSS
+  Generated.LatticeArith Lattice.RotPlanar Lattice.RotPlanarBounded Lattice.RotToric.
 Import ListNotations.
 Local Open Scope Z_scope.
 
@@ -177,3 +177,70 @@ Example rottoric_ex_4x6 : validate (rottoric_code 4 6) = VOk /\ length (stabs (r
   rt_path_indices 4 6 (1, 1) (0, 0) = Some [(1, 1)] /\
   rt_translation 4 6 (0, 0) (3, 1) = Some (3, 1) /\ rt_translation 4 6 (0, 0) (0, 1) = None.
 Proof. vm_compute. auto 10. Qed.
+
+(* ---- GF(2) ranks: n-k = rows*cols-2 for the rows*cols generators; n+k with the four logicals ---- *)
+Definition rt_rank_b (s : Z * Z) : bool := rc_rank_b (rottoric_n_k_d (fst s) (snd s)) (rottoric_code (fst s) (snd s)).
+Lemma rottoric_rank_upto_10_b : forallb rt_rank_b (rt_sizes 10) = true.
+Proof. vm_compute. reflexivity. Qed.
+Theorem rottoric_rank_upto_10 : forall rows cols,
+  2 <= rows <= 10 -> rows mod 2 = 0 -> 2 <= cols <= 10 -> cols mod 2 = 0 ->
+  rc_rank (rottoric_n_k_d rows cols) (rottoric_code rows cols).
+Proof.
+  intros rows cols Hr Er Hc Ec. apply rc_rank_b_spec. exact (rt_upto 10 _ rottoric_rank_upto_10_b rows cols Hr Er Hc Ec).
+Qed.
+
+(* ---- C08: advertised d = min(rows, cols) is the minimum distance; witness X1 (column, weight rows) against Z1,
+        or X2 (row, weight cols) against Z2.  Bound: even rows, cols in 2..6 except 6x6, and the strips 2 x c, r x 2
+        up to 12 ---- *)
+Definition rt_dist_b (s : Z * Z) : bool :=
+  let '(r, c) := s in
+  match rt_logical_xs r c, rt_logical_zs r c with
+  | [x1; x2], [z1; z2] =>
+      if r <=? c then rc_dist_b (rottoric_n_k_d r c) (rottoric_code r c) x1 z1
+      else rc_dist_b (rottoric_n_k_d r c) (rottoric_code r c) x2 z2
+  | _, _ => false
+  end.
+Definition rt_dist_sizes : list (Z * Z) :=
+  filter (fun s => (Z.min (fst s) (snd s) =? 2) || ((Z.max (fst s) (snd s) <=? 6) && (Z.min (fst s) (snd s) <=? 4)))
+         (rt_sizes 12).
+Lemma rottoric_distance_b : forallb rt_dist_b rt_dist_sizes = true.
+Proof. vm_compute. reflexivity. Qed.
+Theorem rottoric_distance_small : forall rows cols,
+  2 <= rows <= 12 -> rows mod 2 = 0 -> 2 <= cols <= 12 -> cols mod 2 = 0 ->
+  Z.min rows cols = 2 \/ (Z.max rows cols <= 6 /\ Z.min rows cols <= 4) ->
+  rc_dist (rottoric_n_k_d rows cols) (rottoric_code rows cols).
+Proof.
+  intros rows cols Hr Er Hc Ec Hm.
+  assert (Hin : In (rows, cols) rt_dist_sizes).
+  { unfold rt_dist_sizes. apply filter_In. split; [apply rt_sizes_In; auto|]. cbn [fst snd].
+    apply orb_true_iff. destruct Hm as [Hm|[H1 H2]]; [left; now apply Z.eqb_eq|right].
+    apply andb_true_iff. split; now apply Z.leb_le. }
+  pose proof (proj1 (forallb_forall _ _) rottoric_distance_b _ Hin) as H. unfold rt_dist_b in H.
+  destruct (rt_logical_xs rows cols) as [|x1 [|x2 [|? ?]]]; try discriminate.
+  destruct (rt_logical_zs rows cols) as [|z1 [|z2 [|? ?]]]; try discriminate.
+  destruct (rows <=? cols); eapply rc_dist_b_spec; exact H.
+Qed.
+Definition rottoric_distance_statement : Prop := forall rows cols,
+  2 <= rows -> rows mod 2 = 0 -> 2 <= cols -> cols mod 2 = 0 ->
+  rc_dist (rottoric_n_k_d rows cols) (rottoric_code rows cols).
+Definition rottoric_distance_partial := rottoric_distance_small.
+
+(* ---- full statements (all even sizes) and the proved parts ---- *)
+Definition rottoric_valid_statement : Prop := forall rows cols,
+  2 <= rows -> rows mod 2 = 0 -> 2 <= cols -> cols mod 2 = 0 ->
+  validate (rottoric_code rows cols) = VOk /\ rc_shape (rottoric_n_k_d rows cols) (rottoric_code rows cols) 2.
+Theorem rottoric_valid_partial : forall rows cols,
+  2 <= rows <= 10 -> rows mod 2 = 0 -> 2 <= cols <= 10 -> cols mod 2 = 0 ->
+  validate (rottoric_code rows cols) = VOk /\ rc_shape (rottoric_n_k_d rows cols) (rottoric_code rows cols) 2.
+Proof.
+  intros rows cols Hr Er Hc Ec. split; [|now apply rottoric_shapes_upto_10].
+  pose proof (rt_upto 10 _ rottoric_valid_upto_10_b rows cols Hr Er Hc Ec) as H. unfold rt_valid_b, validb in H. cbn [fst snd] in H.
+  destruct (validate (rottoric_code rows cols)); try discriminate. reflexivity.
+Qed.
+Definition rottoric_paths_statement : Prop := forall rows cols a b,
+  2 <= rows -> rows mod 2 = 0 -> 2 <= cols -> cols mod 2 = 0 ->
+  rt_path_ok rows cols (rt_plaquette_indices rows cols) (rt_stabilizers rows cols) a b = true.
+(* proved parts: rottoric_paths_upto_8 (all in-lattice pairs, sizes <= 8x8), rottoric_paths_wrapping_upto_6
+   (indices in [-2, max+2], sizes <= 6x6), and for every size RotToric.rt_path_indices_defined (path defined, number of
+   sites = max(|x_steps|,|y_steps|)), RotPlanarAll.rt_translation_target, rt_translation_defined *)
+Definition rottoric_paths_partial := rottoric_paths_upto_8.
